@@ -381,26 +381,26 @@ func (a syAct) String() string {
 // ---------------------------------------------------------------- the rig
 
 type syRig struct {
-	hist    *syHist
-	lock    bool // lock-step: handlers gated, wires held
-	topo    int  // 0 direct, 1 through the real Proxy, 2 through the real Demux
-	link    *Link
-	cc      grpc.ClientConnInterface
-	ctx     context.Context
-	cancel  context.CancelFunc
-	eps     []*Endpoint
-	stops   []func()
-	mu      sync.Mutex
-	ugates  map[int64]*syGate
-	sgates  map[int64]*syGate
-	hprogs  map[int64]syHProg
-	threads []*syThread
-	streams map[int]grpc.ClientStream
-	nextC   int64
+	hist     *syHist
+	lock     bool // lock-step: handlers gated, wires held
+	topo     int  // 0 direct, 1 through the real Proxy, 2 through the real Demux
+	link     *Link
+	cc       grpc.ClientConnInterface
+	ctx      context.Context
+	cancel   context.CancelFunc
+	eps      []*Endpoint
+	stops    []func()
+	mu       sync.Mutex
+	ugates   map[int64]*syGate
+	sgates   map[int64]*syGate
+	hprogs   map[int64]syHProg
+	threads  []*syThread
+	streams  map[int]grpc.ClientStream
+	nextC    int64
 	dumpWait bool // quiescence by goroutine dumps only (a concurrent handler may leave a goroutine waiting for a mutex)
-	armed   map[string]*syThread
-	yieldF  func(pt string) // free-running yield policy
-	active  atomic.Int64    // stream handlers entered and not yet returned
+	armed    map[string]*syThread
+	yieldF   func(pt string) // free-running yield policy
+	active   atomic.Int64    // stream handlers entered and not yet returned
 	// server-side backlog estimate (see wait): envelopes written by the client that are not unary requests / opens,
 	// envelopes still in flight towards the server, receives completed by handlers
 	c2sNoQueue atomic.Int64
@@ -982,22 +982,35 @@ func (r *syRig) wait() {
 		return
 	}
 	buf := make([]byte, 4<<20)
-	prev, prevLen := "", -1
+	prev, prevLen, same := "", -1, 0
 	for spins := 0; ; spins++ {
 		n := runtime.Stack(buf, true)
 		fp, quiet := syBubbleQuiet(string(buf[:n]))
 		hl := r.hist.mark()
-		// two consecutive identical all-blocked pictures with no event in between
+		// consecutive identical all-blocked pictures with no event in between: two when every goroutine is durably
+		// blocked; many more (with more yields in between) when one of them waits for a mutex, because its holder may
+		// just be about to release it (a picture taken in that instant looked quiescent on a heavily loaded machine and
+		// ended a schedule early)
 		if quiet && fp == prev && hl == prevLen {
-			syLastDump = string(buf[:n])
-			return
-		}
-		if quiet {
-			prev, prevLen = fp, hl
+			same++
+			need := 1
+			if strings.Contains(fp, "sync.Mutex.Lock") {
+				need = 40
+			}
+			if same >= need {
+				syLastDump = string(buf[:n])
+				return
+			}
+		} else if quiet {
+			prev, prevLen, same = fp, hl, 0
 		} else {
-			prev, prevLen = "", -1
+			prev, prevLen, same = "", -1, 0
 		}
-		for i := 0; i < 4; i++ {
+		yields := 4
+		if same > 0 {
+			yields = 64
+		}
+		for i := 0; i < yields; i++ {
 			runtime.Gosched()
 		}
 		if spins > 2000000 {
@@ -1074,7 +1087,41 @@ func (r *syRig) runSchedule(choose func(step int, en []syAct) int, maxSteps int)
 	// complete: the schedule ran until no action was enabled; whatever is still pending then (a busy thread, a
 	// running handler) can never finish and is judged by the spec ("an operation never returned")
 	complete = len(r.enabled()) == 0
+	syEndDump = ""
+	if complete {
+		stuck := r.active.Load() != 0
+		for _, th := range r.threads {
+			if th.busy.Load() {
+				stuck = true
+			}
+		}
+		if stuck {
+			// diagnosis of a run that ends with something pending: the goroutines of the bubble (header + top frame)
+			syEndDump = syDumpHeads(syLastDump)
+		}
+	}
 	return
+}
+
+var syEndDump string
+
+func syDumpHeads(dump string) string {
+	var b strings.Builder
+	for _, g := range strings.Split(dump, "\n\n") {
+		ls := strings.Split(g, "\n")
+		if len(ls) == 0 || !strings.Contains(ls[0], "synctest bubble") {
+			continue
+		}
+		b.WriteString(ls[0])
+		for _, l := range ls[1:] {
+			if strings.Contains(l, "goat") || strings.Contains(l, "verifharness") {
+				b.WriteString(" | " + strings.TrimSpace(l))
+				break
+			}
+		}
+		b.WriteString("\n")
+	}
+	return b.String()
 }
 
 func syStepsCoq(steps []syStep) string {
